@@ -8,10 +8,17 @@
    in /repo after the fix commits ffa16da, 39795c3, 560e1ec, 6f0bdb0, fba57a2 — any number of clients, series,
    dimensions, trees, addon trees.
    COARSE model: ingests and renders of one series as called / atomic section / returned; every list of events is
-   a schedule.  The step from the fine to the coarse model ("a section protected by one lock is one step") rests
-   on [C08_segment_sections_exclusive] (proved); the reduction itself is stated, not mechanised.
+   a schedule.  The step from the fine to the coarse model ("a section protected by one lock is one step") is
+   mechanised observationally in [C08_atomic_read_fine] (Proofs/C08Reduction.v): on the fine model instrumented
+   with data, for every schedule, everything a reader's segment read section observes (segment tree and every
+   profile tree read inside it) is the content after exactly the writers whose write section began before it,
+   each whole, in section order.  Left out there: the explicit construction of a coarse schedule by commuting
+   actions (the statement is proved directly by an invariant over the fine run instead); trees are not
+   partitioned by series (all threads work on one series); for the FULL access-table threads (with cache / lfu /
+   dimension steps) the two section disciplines [wdisc]/[rdisc] are checked on instances, parametrically only for
+   the section-only threads [put_core]/[get_core].
    PARTIAL: the Go scheduler and the Go memory model are sampled by the correspondence run (race detector). *)
-From Pyro Require Import Model.Base Model.Conc Proofs.ConcProofs.
+From Pyro Require Import Model.Base Model.Conc Model.ConcData Proofs.ConcProofs Proofs.C08Reduction.
 From Coq Require Import Permutation.
 
 (* lockset: every thread of the table makes every access holding that location's lock in the right mode, and
@@ -78,6 +85,61 @@ Theorem C08_atomic_read : forall evs r S,
   (forall T, In (r, T) (r_ended s) -> incl S T).
 Proof. exact atomic_read. Qed.
 Print Assumptions C08_atomic_read.
+
+(* atomic read on the FINE model with data (all schedules; any threads that respect the lock order, keep their
+   tracked writes in one segment write section — every thread but g — and, for the reader g, its tracked reads in
+   one segment read section): whatever g's read section observed is the content after exactly the writers in S,
+   each WHOLE, in section order; S is a prefix of the final section order, contains every writer that had
+   finished when the read section began and only threads that had begun *)
+Theorem C08_atomic_read_fine : forall s g ts,
+  forallb ordered_thread ts = true ->
+  (forall i, i <> g -> wdisc s false [] (nth i ts []) = true) ->
+  rdisc s false [] (nth g ts []) = true ->
+  forall sched,
+  let d := snd (drun s g sched ts) in
+  forall S C T, d_snap d = Some (S, C, T) ->
+    (forall x v, In (x, v) (d_obs d) -> v = after_puts s ts S x) /\
+    NoDup S /\ (exists rest, d_order d = S ++ rest) /\
+    (forall i, In i C -> i <> g -> 0 < nwrites s (nth i ts []) -> In i S) /\
+    (forall i, In i S -> In i T).
+Proof. exact atomic_read_fine. Qed.
+Print Assumptions C08_atomic_read_fine.
+
+(* instance: k ingests (each merging into any trees) and one render (reading any trees) of one series *)
+Theorem C08_atomic_read_fine_core : forall s puts reads sched,
+  let ts := core_threads s puts reads in
+  let g := length puts in
+  let d := snd (drun s g sched ts) in
+  forall S C T, d_snap d = Some (S, C, T) ->
+    (forall x v, In (x, v) (d_obs d) -> v = after_puts s ts S x) /\
+    NoDup S /\ (exists rest, d_order d = S ++ rest) /\
+    (forall i, In i C -> i <> g -> 0 < nwrites s (nth i ts []) -> In i S) /\
+    (forall i, In i S -> In i T).
+Proof. exact atomic_read_fine_core. Qed.
+Print Assumptions C08_atomic_read_fine_core.
+
+(* every observation is covered: without the snapshot nothing was observed *)
+Theorem C08_no_observation_without_snapshot : forall s g ts,
+  forallb ordered_thread ts = true ->
+  (forall i, i <> g -> wdisc s false [] (nth i ts []) = true) ->
+  rdisc s false [] (nth g ts []) = true ->
+  forall sched, d_snap (snd (drun s g sched ts)) = None -> d_obs (snd (drun s g sched ts)) = [].
+Proof. exact no_observation_without_snapshot. Qed.
+Print Assumptions C08_no_observation_without_snapshot.
+
+Example ex_C08_full_templates_disciplined_instance :
+  wdisc 0 false [] (put_thread 0 [0; 1] [(0, [1; 2], true); (3, [], false)]) = true /\
+  rdisc 0 false [] (get_thread 0 [0; 1] [0; 3]) = true /\
+  wdisc 0 false [] (delete_thread 0 [0; 1] [0; 3]) = true /\
+  wdisc 0 false [] (evict_task CTrees (save_tree 1 0)) = true.
+Proof. exact full_templates_disciplined_instance. Qed.
+
+Example C08_fine_nonvacuous :
+  let r := drun 0 2 [0;0;0;0;0;0; 2;2; 1;1;1; 0;0;0;0;0;0;0;0;0;0;0;0; 2;2;2;2; 1;1;1;1;1;1;1;1;1;1; 2;2;2;2;2;2;2;2;2;2;2]
+                (core_threads 0 [[1; 2]; [2]] [1; 2]) in
+  d_obs (snd r) = [(LocTree 2, [0]); (LocTree 1, [0]); (LocSegTree 0, [0]); (LocSegTree 0, [0])] /\
+  d_snap (snd r) = Some ([0], [0], [0; 2]).
+Proof. exact fine_nonvacuous. Qed.
 
 (* quiescent sum (coarse model, all schedules): once every called ingest has returned, the series holds each of
    them exactly once — the sequential sum *)
